@@ -155,7 +155,9 @@ CLAIMED = {
         text="Coq theorems over the Memfs mirror for every state, path and data: a successful write_all makes read_all return exactly the data "
              "(whole content replaced), append_all makes it old ++ data (prefix unchanged), read_all returns the stored bytes, "
              "read_lines(write_lines(ls)) = ls for non-empty terminator-free lines with exactly one newline per line (over the UTF-8 / lines model), "
-             "and writing one path leaves every other path's content unchanged. Tied by byte strings (empty, multi-byte, invalid UTF-8, CRLF, 2 KiB) x every "
+             "and writing one path leaves every other path's content unchanged; for ANY sequence of write_all / write_lines / append_all / "
+             "append_line / append_lines on one regular file every call succeeds and the content is what the byte-vector model holds, which "
+             "read_all returns (Memfs/ContentHistory.v); a copied file does not alias its source (Memfs/NoAlias.v). Tied by byte strings (empty, multi-byte, invalid UTF-8, CRLF, 2 KiB) x every "
              "reachable tree x all write/append/line helpers and reads, handle-based write/append histories, and interleavings over three files with "
              "copies and moves (no aliasing), all compared with the mirror and judged by content laws on the implementation's snapshots. Handle "
              "semantics themselves are C07's theorems.",
@@ -178,7 +180,8 @@ CLAIMED = {
              "without links to a fresh path in an existing directory, not following links, is proved on the reference tree (Memfs/CopyDir.v): "
              "every entry at j below the source has a copy at j below the destination with the source's kind, bytes and (requested or own) "
              "mode, nothing else appears below the destination, everything outside it is as before (it needs the keys below the source to be "
-             "proper path names, proved an invariant of every call in Memfs/Names.v, so it holds in every reachable state). Partial: sources containing links, copies into an existing directory and "
+             "proper path names, proved an invariant of every call in Memfs/Names.v, so it holds in every reachable state); with dst an "
+             "existing directory the same holds for dst/<name of the source> (Memfs/CopyInto.v). Partial: sources containing links and "
              "copies that follow links are judged on the bounded enumeration, not proved.",
         note="Trusted: Coq kernel; tools/frames.py as the executable statement of the clauses; after a copy that follows links the state is "
              "compared up to HashSet order; extraction, driver, harness, differ.",
@@ -205,7 +208,9 @@ CLAIMED = {
              "reachable by ANY history of calls - reachable states are well formed (C03) and kind-sound (Memfs/Kinds.v), both proved for every "
              "call including the move / copy / traversal loops - the mirror of Memfs refines the reference for mkfile, mkdir_p / mkdir_m, "
              "write_all, append_all, reads, remove, remove_all (off the root), symlink, set_cwd and the queries: the call returns exactly the reference call's value or error kind and leaves exactly "
-             "the reference call's tree (so a failed call leaves it as it was). move_p is specified exactly and proved in Memfs/WfMove.v (C09). "
+             "the reference call's tree; a single-target call that reports failure (mkfile, mkdir_p / mkdir_m, write_all, append_all, remove, "
+             "symlink, set_cwd, move_p) leaves the three indexes exactly as they were (failed_call_unchanged); chown without follow refines the "
+             "reference chown (Memfs/RefineChown.v). move_p is specified exactly and proved in Memfs/WfMove.v (C09). "
              "The mirror is tied to the real Memfs by a model-guided BFS of every reachable state of a bounded namespace x the full call "
              "alphabet and by random histories: every call's value / error kind and the complete resulting state; 'a failed single-target call "
              "leaves the tree as it was' is also evaluated on the implementation's pre/post snapshots. Partial: copy, chmod and "
@@ -216,7 +221,9 @@ CLAIMED = {
         ref="§7 C01"),
     "C20": dict(
         text="Coq theorems over mirrors of the assert_vfs_* macros for every state, environment and argument: each checking macro passes iff its "
-             "predicate holds, never changes the state, and names itself when it panics; each acting macro that passes establishes its postcondition. "
+             "predicate holds (exists / no_exists, is_dir / no_dir, is_file / no_file, is_symlink / no_symlink, read_all, readlink, readlink_abs), "
+             "never changes the state, and names itself when it panics; each acting macro that passes establishes its postcondition (mkdir_p, "
+             "mkdir_m incl. the permission bits, mkfile, write_all, symlink, remove, remove_all). "
              "Tied by expanding the real macros under catch_unwind in every reachable state of a bounded namespace x every path x matching and "
              "non-matching expected values, comparing pass / panic and the macro named in the message. Partial: the Stdfs side runs under C02; the "
              "message's path is checked by the harness, not modelled.",
@@ -273,7 +280,10 @@ CLAIMED = {
              "under one lock, under EVERY schedule: the calls in critical-section order replayed sequentially give exactly the observed "
              "results and final state; that order respects each thread's program order and real-time precedence (responded before invoked "
              "=> linearized first); a configuration with work left always has a thread that can move (no deadlock); instantiated with the "
-             "Memfs mirror's step, whose critical sections never panic (no poisoned lock). The discipline the model assumes is checked on "
+             "Memfs mirror's step, whose critical sections never panic (no poisoned lock); once every thread has finished every call of every "
+             "program is in that order exactly once (lin_complete, lin_once); for programs that append to one existing regular file the final "
+             "content under any schedule is the old content followed by every appended chunk in critical-section order, each exactly once "
+             "(Conc/Appends.v). The discipline the model assumes is checked on "
              "Gen/Locks.v, regenerated from src/sys/fs/memfs/vfs.rs on every run: every single-step operation of the statement opens exactly "
              "one critical section on any syntactic path (handle flushes and loops counted) and no method asks for the lock while holding "
              "a guard. Tied dynamically by real threads on one shared Memfs with yield points before every lock acquisition: every distinct "
